@@ -18,6 +18,16 @@ for sid in sys.argv[2:]:
     if not ds:
         continue
     d = ds[0]
+    skip = os.environ.get('SEEDREGRESS_SKIP_GLOB')          # other workers' reports: a seed already done there is skipped
+    if skip:
+        done = set()
+        for f in glob.glob(skip):
+            try:
+                done |= {r['id'] for r in json.load(open(f))}
+            except Exception:       # noqa: BLE001
+                pass
+        if os.path.basename(d) in done:
+            continue
     m = json.load(open(os.path.join(d, 'meta.json')))
     prop = m['breaks_property']
     t0 = time.time()
